@@ -232,28 +232,7 @@ func runC14(c *Ctx) error {
 			}
 		}
 	}
-	// ---- (d) pooled windows
-	{
-		up := gws.NewUpgrader(&recHandler{}, &gws.ServerOption{PermessageDeflate: gws.PermessageDeflate{Enabled: true, ServerContextTakeover: true, ClientContextTakeover: true}})
-		ext := map[string][]string{"Sec-WebSocket-Extensions": {"permessage-deflate"}}
-		for round := 0; round < 6; round++ {
-			tap := newMemConn()
-			conn, err := serverConnWith(up, tap, ext)
-			if err != nil {
-				return err
-			}
-			cps, en, dps, den := conn.VerifWindows()
-			tag := fmt.Sprintf("window round=%d", round)
-			if !en || !den || len(cps) != 0 || len(dps) != 0 {
-				c.oracleFail(fmt.Sprintf("a new connection starts with a non-empty or disabled window (cps %d bytes, dps %d bytes) [%s]", len(cps), len(dps), tag), "window-not-fresh", map[string]any{"tag": tag})
-			}
-			secret := []byte(fmt.Sprintf("secret-of-connection-%d-", round))
-			_ = conn.WriteMessage(gws.OpcodeText, bytes.Repeat(secret, 40))
-			tap.feed(dataFrame(8, true, true, []byte{0x03, 0xe8}))
-			tap.setEOF()
-			runWithTimeout(5*time.Second, conn.ReadLoop)
-			c.count(tag, true, "kind=window")
-		}
-	}
+	// ---- (d) pooled windows: state and behaviour of every new connection of a long-lived server
+	freshWindowScenario(c, 24)
 	return nil
 }
